@@ -6,7 +6,8 @@ CONSTANTS
   TrimDepth = 2
   MaxSteps = 20
   WithCrash = FALSE
-  CrashInHeadWindow = FALSE
+  HeadInBatch = TRUE
+  CrashInHeadWindow = TRUE
   SpendTrimCandidate = FALSE
 VIEW view
 ACTION_CONSTRAINT EmitHist
